@@ -335,6 +335,7 @@ pub struct LeafSpec {
     pub always_ready: bool,
     /// the stream's script goes on after its first `End` (a non-fused stream that is polled again after `None`)
     pub resumable: bool,
+    pub wake_on_drop: bool,
 }
 
 impl Builder {
@@ -356,6 +357,7 @@ impl Builder {
             let mut c = Child::leaf(if stream { Kind::LeafStr } else { Kind::LeafFut }, spec.script);
             c.always_ready = spec.always_ready;
             c.resumable = spec.resumable;
+            c.wake_on_drop = spec.wake_on_drop;
             c.parent = Some(parent);
             if c.never {
                 w.st.never_children += 1;
@@ -381,7 +383,8 @@ impl Builder {
     pub fn build_fut(&mut self, s: &Shape, parent: Option<(Cid, usize)>) -> BF {
         assert!(!s.fam.is_stream(), "{:?} is not a future family", s.fam);
         let cid = self.reg_node(s, parent);
-        let kids: Vec<KFut> = s.kids.iter().enumerate().map(|(i, k)| self.kid_fut(k, (cid, i))).collect();
+        let mut kids: Vec<KFut> = s.kids.iter().enumerate().map(|(i, k)| self.kid_fut(k, (cid, i))).collect();
+        spare_capacity(s.cont, &mut kids);
         make_fut(s.fam, s.cont, cid, kids)
     }
     pub fn build_str(&mut self, s: &Shape, parent: Option<(Cid, usize)>) -> BS {
@@ -403,10 +406,30 @@ impl Builder {
                 Box::pin(TapS::new(cid, StreamExt::wait_until(inner, deadline), n_item))
             }
             _ => {
-                let kids: Vec<KStr> = s.kids.iter().enumerate().map(|(i, k)| self.kid_str(k, (cid, i))).collect();
+                let mut kids: Vec<KStr> = s.kids.iter().enumerate().map(|(i, k)| self.kid_str(k, (cid, i))).collect();
+                spare_capacity(s.cont, &mut kids);
                 make_str(s.fam, s.cont, cid, kids)
             }
         }
+    }
+}
+
+/// A `Vec` handed to a combinator may have spare capacity (built by `push`, `with_capacity`, ...): the Vec variants
+/// reuse the caller's allocation, so `len` and `capacity` must not be confused anywhere. Random engines only.
+fn spare_capacity<T>(cont: Cont, v: &mut Vec<T>) {
+    if cont != Cont::Vec {
+        return;
+    }
+    let extra = w(|w| {
+        if w.small_mode || !w.chance(40) {
+            0
+        } else {
+            w.st.vec_spare_capacity += 1;
+            [1usize, 2, 3, 7, 64][w.below(5)]
+        }
+    });
+    if extra > 0 {
+        v.reserve_exact(extra);
     }
 }
 
